@@ -14,18 +14,44 @@ import (
 
 	"github.com/ngicks/gokugen/def"
 
+	"verifharness/internal/gatedrv"
 	"verifharness/internal/rng"
 	"verifharness/internal/sim"
 )
 
 // crashChild: executes the script read from stdin against the SQLite file and acknowledges every
 // completed operation on stdout ("ack <i> <request> -> <response>"). It is SIGKILLed by the parent.
+//
+// With a second argument K > 0 the child runs on the gating driver and SIGKILLs ITSELF at the K-th statement boundary
+// of the script (boundaries = before / after every Exec, Query and Commit the repository issues; schema creation is not
+// counted): every crash point at statement granularity can be enumerated deterministically. K = -1 only counts and
+// reports "events <n>" when the script is done.
 func crashChild(args []string) {
 	db := args[0]
-	u, err := openEntFile(db, true)
+	killAt := 0
+	if len(args) > 1 {
+		killAt, _ = strconv.Atoi(args[1])
+	}
+	var u *repoUnderTest
+	var err error
+	events := 0
+	if killAt != 0 {
+		u, err = openEntFileDriver(db, true, gatedrv.Name)
+	} else {
+		u, err = openEntFile(db, true)
+	}
 	if err != nil {
 		fmt.Println("fatal", err)
 		os.Exit(3)
+	}
+	if killAt != 0 {
+		gatedrv.OnEvent = func(kind, what string) {
+			events++
+			if events == killAt {
+				syscall.Kill(os.Getpid(), syscall.SIGKILL)
+				select {}
+			}
+		}
 	}
 	in := bufio.NewScanner(os.Stdin)
 	in.Buffer(make([]byte, 1<<20), 1<<24)
@@ -42,6 +68,13 @@ func crashChild(args []string) {
 		resp, _ := u.applyOp(tok)
 		i++
 		fmt.Fprintf(out, "ack %d %s -> %s\n", i, line, resp)
+		if killAt < 0 {
+			fmt.Fprintf(out, "at %d\n", events)
+		}
+		out.Flush()
+	}
+	if killAt != 0 {
+		fmt.Fprintf(out, "events %d\n", events)
 		out.Flush()
 	}
 	// script exhausted: wait to be killed (or exit if the parent closes)
@@ -50,7 +83,8 @@ func crashChild(args []string) {
 
 // crashRun runs one workload with one kill point and returns the trace for the repo driver.
 // killAfter = number of acks to wait for; delay = extra time before SIGKILL (lands inside the next op).
-func crashRun(self string, scratch string, script []string, killAfter int, delay time.Duration, recover string, suffix []string) []string {
+// killEvent > 0: the child kills itself at that statement boundary (killAfter / delay are then unused).
+func crashRun(self string, scratch string, script []string, killAfter int, delay time.Duration, recover string, suffix []string, killEvent int) []string {
 	out := []string{"new ent"}
 	db := filepath.Join(scratch, fmt.Sprintf("crash%d_%d.db", os.Getpid(), dbSeq.Add(1)))
 	defer func() {
@@ -59,6 +93,10 @@ func crashRun(self string, scratch string, script []string, killAfter int, delay
 		}
 	}()
 	cmd := exec.Command(self, "crashchild", db)
+	if killEvent > 0 {
+		cmd = exec.Command(self, "crashchild", db, strconv.Itoa(killEvent))
+		killAfter = len(script) + 1 // read acknowledgements until the child is gone
+	}
 	stdin, _ := cmd.StdinPipe()
 	stdout, _ := cmd.StdoutPipe()
 	if err := cmd.Start(); err != nil {
@@ -81,6 +119,9 @@ func crashRun(self string, scratch string, script []string, killAfter int, delay
 	acks := 0
 	for acks < killAfter && rd.Scan() {
 		l := rd.Text()
+		if strings.HasPrefix(l, "events ") {
+			break // (self-kill point beyond the last statement of the script)
+		}
 		if strings.HasPrefix(l, "ack ") {
 			f := strings.SplitN(l, " ", 3)
 			out = append(out, f[2])
@@ -90,7 +131,9 @@ func crashRun(self string, scratch string, script []string, killAfter int, delay
 	if delay > 0 {
 		time.Sleep(delay)
 	}
-	cmd.Process.Signal(syscall.SIGKILL)
+	if killEvent <= 0 || acks >= len(script) {
+		cmd.Process.Signal(syscall.SIGKILL) // (a self-kill point beyond the script's last statement: kill from outside)
+	}
 	// acknowledgements that were already written before the kill count as acknowledged
 	for rd.Scan() {
 		l := rd.Text()
@@ -135,11 +178,52 @@ func crashRun(self string, scratch string, script []string, killAfter int, delay
 	return append(out, "end")
 }
 
+// crashCount runs the script once on the gating driver without a kill and returns the number of statement boundaries.
+func crashCount(self, scratch string, script []string) (total int, after []int) {
+	db := filepath.Join(scratch, fmt.Sprintf("crashc%d_%d.db", os.Getpid(), dbSeq.Add(1)))
+	defer func() {
+		for _, sfx := range []string{"", "-journal", "-wal", "-shm"} {
+			os.Remove(db + sfx)
+		}
+	}()
+	cmd := exec.Command(self, "crashchild", db, "-1")
+	stdin, _ := cmd.StdinPipe()
+	stdout, _ := cmd.StdoutPipe()
+	if err := cmd.Start(); err != nil {
+		return 0, nil
+	}
+	go func() {
+		w := bufio.NewWriter(stdin)
+		for _, l := range script {
+			fmt.Fprintln(w, l)
+		}
+		w.Flush()
+		stdin.Close()
+	}()
+	rd := bufio.NewScanner(stdout)
+	rd.Buffer(make([]byte, 1<<20), 1<<24)
+	for rd.Scan() {
+		l := rd.Text()
+		if strings.HasPrefix(l, "at ") {
+			k, _ := strconv.Atoi(strings.TrimPrefix(l, "at "))
+			after = append(after, k)
+		}
+		if strings.HasPrefix(l, "events ") {
+			total, _ = strconv.Atoi(strings.TrimPrefix(l, "events "))
+			break
+		}
+	}
+	cmd.Process.Kill()
+	cmd.Wait()
+	return total, after
+}
+
 func cmdCrash(args []string) {
 	var c common
 	fs := flag.NewFlagSet("crash", flag.ExitOnError)
 	c.register(fs)
 	random := fs.Int("random", 20, "extra kill points at random instants per workload")
+	stmts := fs.Int("stmts", 60, "kill points at statement boundaries (before / after every Exec, Query, Commit) per workload; all of them when the workload has no more")
 	fs.Parse(args)
 	os.MkdirAll(c.scratch, 0o755)
 	self, _ := os.Executable()
@@ -151,6 +235,7 @@ func cmdCrash(args []string) {
 		delay   time.Duration
 		recover string
 		suffix  []string
+		event   int
 	}
 	var jobs []job
 	for wl := 0; wl < c.n; wl++ {
@@ -188,7 +273,7 @@ func cmdCrash(args []string) {
 			for i := 0; i < 12; i++ {
 				suf = append(suf, g2.next(nil, issued, "ent"))
 			}
-			return job{script, k, d, rec, suf}
+			return job{script, k, d, rec, suf, 0}
 		}
 		for k := 0; k <= len(script); k++ {
 			jobs = append(jobs, mk(k, 0))
@@ -196,13 +281,51 @@ func cmdCrash(args []string) {
 		for i := 0; i < *random; i++ {
 			jobs = append(jobs, mk(r.Intn(len(script)), time.Duration(20+r.Intn(600))*time.Microsecond))
 		}
+		if *stmts > 0 {
+			n, after := crashCount(self, c.scratch, script)
+			rep.Dist["statement boundaries"] += n
+			pick := map[int]bool{}
+			// every boundary inside a recovery operation (a bulk change of many rows: must be all-or-nothing) first
+			for i, l := range script {
+				switch strings.Fields(l)[0] {
+				case "rev", "cdp", "del":
+					if i < len(after) {
+						from := 0
+						if i > 0 {
+							from = after[i-1]
+						}
+						for e := from + 1; e <= after[i] && len(pick) < *stmts; e++ {
+							pick[e] = true
+							rep.Dist["kills inside a recovery operation"]++
+						}
+					}
+				}
+			}
+			if n <= *stmts {
+				for e := 1; e <= n; e++ {
+					pick[e] = true
+				}
+			} else {
+				for len(pick) < *stmts {
+					pick[1+r.Intn(n)] = true
+				}
+			}
+			for e := 1; e <= n; e++ {
+				if pick[e] {
+					j := mk(0, 0)
+					j.event = e
+					jobs = append(jobs, j)
+					rep.Dist["kills at a statement boundary"]++
+				}
+			}
+		}
 	}
 	hists := make([]sim.History, len(jobs))
 	traces := make([][]string, len(jobs))
 	parallelDo(&c, len(jobs), func(i int) {
 		j := jobs[i]
-		traces[i] = crashRun(self, c.scratch, j.script, j.k, j.delay, j.recover, j.suffix)
-		hists[i] = sim.History{Header: fmt.Sprintf("crash kill-after=%d delay=%s", j.k, j.delay), Ops: traces[i][1 : len(traces[i])-1]}
+		traces[i] = crashRun(self, c.scratch, j.script, j.k, j.delay, j.recover, j.suffix, j.event)
+		hists[i] = sim.History{Header: fmt.Sprintf("crash kill-after=%d delay=%s stmt-boundary=%d", j.k, j.delay, j.event), Ops: traces[i][1 : len(traces[i])-1]}
 	})
 	for _, h := range hists {
 		rep.Ops += len(h.Ops)
